@@ -1259,6 +1259,165 @@ Proof.
     eapply accesses_ok; eassumption.
 Qed.
 
+(* ---------------------------------------------------------------- program order *)
+Inductive subseq {A : Type} : list A -> list A -> Prop :=
+| ss_nil l : subseq [] l
+| ss_skip x l1 l2 : subseq l1 l2 -> subseq l1 (x :: l2)
+| ss_take x l1 l2 : subseq l1 l2 -> subseq (x :: l1) (x :: l2).
+
+Lemma subseq_refl {A} (l : list A) : subseq l l.
+Proof. induction l; constructor; assumption. Qed.
+Lemma subseq_trans {A} (l1 l2 l3 : list A) : subseq l1 l2 -> subseq l2 l3 -> subseq l1 l3.
+Proof.
+  intros H12 H23. revert l1 H12. induction H23 as [l|x l2 l3 H IH|x l2 l3 H IH]; intros l1 H12.
+  - inversion H12; constructor.
+  - constructor. apply IH; assumption.
+  - inversion H12; subst.
+    + apply ss_nil.
+    + apply ss_skip. apply IH; assumption.
+    + apply ss_take. apply IH; assumption.
+Qed.
+Lemma subseq_drop {A} (a b : list A) x : subseq (a ++ b) (a ++ x :: b).
+Proof. induction a; cbn; [constructor; apply subseq_refl|constructor; assumption]. Qed.
+
+Definition pkts_of (prog : list op) : list packet :=
+  flat_map (fun o => match o with OPkt p => [p] | OFlush => [] end) prog.
+Definition cur_pkt (p : pc) : list packet :=
+  match p with
+  | PMiss p => [p]
+  | PRetry p => [p]
+  | PWant _ (WPkt p _) => [p]
+  | _ => []
+  end.
+Definition proc_pkt (t : nat) (e : event) : list packet :=
+  match e with EProc t' p _ _ _ => if Nat.eqb t' t then [p] else [] | _ => [] end.
+(* packets processed by thread t, oldest first *)
+Definition procs (t : nat) (log : list event) : list packet := rev (flat_map (proc_pkt t) log).
+Definition order_line (s : State) (t : nat) : list packet :=
+  procs t (s_log s) ++ cur_pkt (t_pc (thr s t)) ++ pkts_of (t_prog (thr s t)).
+
+Lemma procs_app t l1 l2 : procs t (l1 ++ l2) = procs t l2 ++ procs t l1.
+Proof. unfold procs. rewrite flat_map_app, rev_app_distr. reflexivity. Qed.
+Lemma procs_calls t t0 sg c evs : procs t (rev (map (ECall t0 sg c) evs)) = [].
+Proof.
+  unfold procs. assert (H : forall l, flat_map (proc_pkt t) (map (ECall t0 sg c) l) = []).
+  { induction l; cbn; auto. }
+  rewrite <- map_rev, H. reflexivity.
+Qed.
+
+(* one step of t moves packets along program -> current -> processed, or drops one *)
+Lemma exec_order g (s : State) t s' : exec' g s t = Some s' ->
+  (order_line s' t = order_line s t \/
+   (exists a x b, order_line s t = a ++ x :: b /\ order_line s' t = a ++ b) \/
+   (exists b, order_line s t = order_line s' t ++ b)) /\
+  (forall t2, t2 <> t -> procs t2 (s_log s') = procs t2 (s_log s)).
+Proof.
+  intros E. assert (Lt : t < length (s_thr s)).
+  { apply enabled_lt. unfold exec in E. destruct (enabled' s t); [reflexivity|discriminate]. }
+  revert E. unfold exec. destruct (enabled' s t); cbn [negb]; [|discriminate].
+  assert (Hthr : forall c f (o : list Conn) n k th l tg,
+     thr (mkSt c f o n k (set_thr cstate s t th) l tg) t = th).
+  { intros. unfold thr; cbn [s_thr]. unfold set_thr. apply nth_upd_eq; assumption. }
+  assert (Hnp : forall prog, cur_pkt (next_pc prog) = []) by (intros []; reflexivity).
+  assert (Hcf : forall r prog, cur_pkt (cont_flush r prog) = []) by (intros [] []; reflexivity).
+  assert (Hlk : forall p prog, order_line (do_lookup cstate g s t p prog) t = procs t (s_log s) ++ p :: pkts_of prog \/
+                               order_line (do_lookup cstate g s t p prog) t = procs t (s_log s) ++ pkts_of prog).
+  { intros p prog. unfold order_line, do_lookup. rewrite Hthr. cbn [s_log t_pc t_prog].
+    destruct (lookup g (s_conns s) (p_key p)) as [[c fwd]|]; [left; reflexivity|].
+    destruct (end_flag g p); cbn [t_pc t_prog]; [right; rewrite Hnp; reflexivity|left; reflexivity]. }
+  assert (HX : order_line s t = procs t (s_log s) ++ cur_pkt (t_pc (thr s t)) ++ pkts_of (t_prog (thr s t))) by reflexivity.
+  rewrite HX; clear HX. destruct (t_pc (thr s t)) eqn:Epc.
+  - destruct (t_prog (thr s t)) as [|[p|] rest] eqn:Epr.
+    + intros H; inversion H; subst; clear H. split; [|reflexivity]. left. unfold order_line. rewrite Hthr. reflexivity.
+    + destruct (ignored g p); intros H; inversion H; subst; clear H; (split; [|reflexivity]).
+      * right; left. exists (procs t (s_log s)), p, (pkts_of rest). split; [reflexivity|].
+        unfold order_line. rewrite Hthr. cbn [s_log t_pc t_prog]. rewrite Hnp. reflexivity.
+      * destruct (Hlk p rest) as [H|H]; rewrite H; [left; reflexivity|].
+        right; left. exists (procs t (s_log s)), p, (pkts_of rest). split; reflexivity.
+    + intros H; inversion H; subst; clear H. split; [|reflexivity]. left.
+      unfold order_line. rewrite Hthr. cbn [s_log t_pc t_prog]. rewrite Hcf. reflexivity.
+  - assert (Hlog : forall t2 l, procs t2 (ENew t (p_key p) (s_nsid s) :: l) = procs t2 l /\
+                              procs t2 (EPanic t :: ENew t (p_key p) (s_nsid s) :: l) = procs t2 l).
+    { intros t2 l. unfold procs. cbn. split; reflexivity. }
+    destruct (s_free s) as [|c0 f];
+    (destruct (lookup g (s_conns s) (p_key p)) as [[c2 fwd2]|] eqn:EL;
+     [match goal with |- context[if ?b then _ else _] => destruct b end|]);
+    intros H; inversion H; subst; clear H;
+    (split; [|intros t2 _; cbn [s_log]; apply Hlog]);
+    unfold order_line; rewrite Hthr; cbn [s_log t_pc t_prog];
+    rewrite ?(proj1 (Hlog t (s_log s))), ?(proj2 (Hlog t (s_log s)));
+    first [ left; reflexivity
+          | right; right; exists (p :: pkts_of (t_prog (thr s t))); cbn; rewrite ?app_nil_r; reflexivity ].
+  - destruct w as [p fwd0|rest].
+    + destruct (match g_pkg g with Tcp => cclosed (c_st (obj' s c)) | Rsm => false end).
+      * intros H; inversion H; subst; clear H. split; [|reflexivity]. left.
+        unfold order_line. rewrite Hthr. reflexivity.
+      * destruct (process (c_st (obj' s c)) fwd0 p) as [[st' evs] closes].
+        assert (Hl : forall t2, procs t2 (rev (map (ECall t (c_stream (obj' s c)) c) evs) ++
+                       EProc t p c (c_key (obj' s c)) (c_stream (obj' s c)) :: s_log s) =
+                     procs t2 (s_log s) ++ (if Nat.eqb t t2 then [p] else [])).
+        { intros t2. rewrite procs_app, procs_calls, app_nil_r.
+          change (EProc t p c (c_key (obj' s c)) (c_stream (obj' s c)) :: s_log s)
+            with ([EProc t p c (c_key (obj' s c)) (c_stream (obj' s c))] ++ s_log s).
+          rewrite procs_app. unfold procs at 2. cbn. destruct (Nat.eqb t t2); reflexivity. }
+        destruct closes; intros H; inversion H; subst; clear H;
+          (split; [|intros t2 N; cbn [s_log]; rewrite Hl;
+                    destruct (Nat.eqb t t2) eqn:Eq; [apply Nat.eqb_eq in Eq; congruence|apply app_nil_r]]);
+          left; unfold order_line; rewrite Hthr; cbn [s_log t_pc t_prog]; rewrite Hl, Nat.eqb_refl;
+          rewrite ?Hnp; cbn [cur_pkt]; rewrite <- app_assoc; reflexivity.
+    + destruct (flush (c_st (obj' s c))) as [[st' evs] closes].
+      assert (Hl : forall t2, procs t2 (rev (map (ECall t (c_stream (obj' s c)) c) evs) ++ s_log s) = procs t2 (s_log s)).
+      { intros t2. rewrite procs_app, procs_calls, app_nil_r. reflexivity. }
+      destruct closes; intros H; inversion H; subst; clear H;
+        (split; [|intros t2 _; cbn [s_log]; apply Hl]);
+        left; unfold order_line; rewrite Hthr; cbn [s_log t_pc t_prog]; rewrite Hl, ?Hcf; reflexivity.
+  - intros H; inversion H; subst; clear H. split; [|reflexivity]. left.
+    unfold order_line. rewrite Hthr. cbn [s_log t_pc t_prog].
+    destruct k; rewrite ?Hnp, ?Hcf; reflexivity.
+  - intros H; inversion H; subst; clear H. split; [|reflexivity].
+    destruct (Hlk p (t_prog (thr s t))) as [H|H]; rewrite H; [left; reflexivity|].
+    right; left. exists (procs t (s_log s)), p, (pkts_of (t_prog (thr s t))). split; reflexivity.
+  - discriminate.
+  - discriminate.
+Qed.
+
+Lemma order_reachable g progs s : reachable g progs s ->
+  forall t, subseq (order_line s t) (pkts_of (nth t progs [])).
+Proof.
+  induction 1 as [|s t s' R IH E]; intros t2.
+  - unfold order_line, thr, init; cbn [s_log s_thr]. cbn [procs flat_map rev app].
+    destruct (Nat.lt_ge_cases t2 (length progs)) as [L|L].
+    + rewrite nth_indep with (d' := (fun pr => mkThr (next_pc pr) pr) []) by (rewrite map_length; assumption).
+      rewrite (map_nth (fun pr => mkThr (next_pc pr) pr)). cbn [t_pc t_prog].
+      destruct (nth t2 progs []); cbn [next_pc cur_pkt app]; apply subseq_refl.
+    + rewrite nth_overflow by (rewrite map_length; assumption). cbn. constructor.
+  - destruct (exec_order _ _ _ _ E) as [Ht Ho].
+    destruct (Nat.eq_dec t2 t) as [->|N].
+    + destruct Ht as [->|[[a [x [b [E1 ->]]]]|[b E1]]]; [apply IH| |].
+      * eapply subseq_trans; [apply subseq_drop|]. rewrite <- E1. apply IH.
+      * eapply subseq_trans; [|apply IH]. rewrite E1.
+        generalize (order_line s' t). intros l. induction l; cbn; constructor; assumption.
+    + assert (Lt : t < length (s_thr s)).
+      { apply enabled_lt. unfold exec in E. destruct (enabled' s t); [reflexivity|discriminate]. }
+      assert (Hth : thr s' t2 = thr s t2).
+      { destruct (exec_spec _ _ _ _ E) as
+          [th' _ _ _ _ _ _ Ht2 _ _ _ _
+          |p th' c free' objs0 _ _ _ _ _ Ht2 _ _ _ _
+          |c w st' evs closes th' _ _ _ _ _ _ _ _ Ht2 _ _ _
+          |c k th' _ _ _ _ _ _ Ht2 _ _]; eapply thr_upd_ne; eassumption. }
+      unfold order_line. rewrite Hth, (Ho _ N). apply IH.
+Qed.
+
+(* hence: the packets a thread has processed so far, in the order it processed them, are a
+   subsequence of its program *)
+Lemma processed_in_program_order g progs s t : reachable g progs s ->
+  subseq (procs t (s_log s)) (pkts_of (nth t progs [])).
+Proof.
+  intros R. eapply subseq_trans; [|apply (order_reachable _ _ _ R t)].
+  unfold order_line. generalize (cur_pkt (t_pc (thr s t)) ++ pkts_of (t_prog (thr s t))).
+  generalize (procs t (s_log s)). intros l1 l2. induction l1; cbn; constructor; assumption.
+Qed.
+
 End Proofs.
 
 (* ================================================================ the two concrete machines satisfy machine_ok *)
